@@ -210,6 +210,7 @@ type brokerDomain struct {
 	unreachable map[uint64]bool
 	failed      map[uint64]bool
 	settleMs    int
+	runaway     bool // the broker never became quiet within the settle deadline: stop driving it
 }
 
 func init() {
@@ -312,6 +313,8 @@ func (b *brokerDomain) settle() {
 			return
 		}
 	}
+	// five seconds of uninterrupted activity after a single client operation: something feeds itself
+	b.runaway = true
 }
 
 // collectGossip moves everything queued for broadcast on node i into the per-destination pending lists
@@ -649,6 +652,9 @@ func (b *brokerDomain) renderInbox(c *bclient) string {
 		}
 	}
 	sort.Strings(out)
+	if len(out) > 300 {
+		out = append(out[:300], fmt.Sprintf("…+%d-more", len(out)-300))
+	}
 	if closed {
 		out = append(out, "CLOSED")
 	}
@@ -689,8 +695,12 @@ func (b *brokerDomain) step(f []string) string {
 	if len(f) == 0 {
 		return "bad-op"
 	}
+	if b.runaway && f[0] != "reset" && f[0] != "bye" {
+		return "RUNAWAY the broker did not become quiet within 5 s of an earlier operation"
+	}
 	switch f[0] {
 	case "reset":
+		b.runaway = false
 		nn := 1
 		if len(f) > 1 {
 			nn = atoi(f[1])
@@ -906,6 +916,20 @@ func (b *brokerDomain) step(f []string) string {
 		b.collectGossip()
 		b.deliverGossip(atoi(f[1]), atoi(f[2]))
 		return b.observe("ok")
+	case f[0] == "bcone" && len(f) == 4:
+		// deliver (only) the k-th payload node <from> has pending for node <to>: gossip can overtake gossip
+		b.collectGossip()
+		from, to, k := b.nodes[atoi(f[1])], atoi(f[2]), atoi(f[3])
+		q := from.pending[to]
+		if k < 0 || k >= len(q) {
+			return b.observe("nosuch")
+		}
+		m := q[k]
+		from.pending[to] = append(append([][]byte{}, q[:k]...), q[k+1:]...)
+		if !b.failed[b.nodes[to].id] {
+			b.nodes[to].state.Distributor().NotifyMsg(m)
+		}
+		return b.observe("ok")
 	case f[0] == "losegossip" && len(f) == 3:
 		b.collectGossip()
 		b.nodes[atoi(f[1])].pending[atoi(f[2])] = nil
@@ -982,7 +1006,11 @@ func (b *brokerDomain) step(f []string) string {
 		return showList(ss) + " " + showList(us) + " " + showList(rs) + " " + showList(ls)
 	case f[0] == "log" && len(f) == 2:
 		out := []string{}
-		for _, p := range b.nodes[atoi(f[1])].log.snapshot() {
+		for i, p := range b.nodes[atoi(f[1])].log.snapshot() {
+			if i >= 300 {
+				out = append(out, "…more")
+				break
+			}
 			out = append(out, fmt.Sprintf("%s=%s", safe(p.Topic), showHex(p.Payload)))
 		}
 		return "[" + strings.Join(out, " ") + "]"
